@@ -41,3 +41,9 @@ Theorem C02_add_node : forall d st p t lo sg h d' id, tree_ok d -> p < List.leng
   (forall i, i < id -> core (get_node d' i) = core (get_node d i) /\ n_header (get_node d' i) = n_header (get_node d i)).
 Proof. exact add_node_spec. Qed.
 Print Assumptions C02_add_node.
+
+(* headers: a node that has a header points to a HeaderToken node created no later than itself and either is that
+   header or inherits it from its parent, so every cell of a spine path carries the header of its column *)
+Theorem C02_headers : forall bad text d, loads bad text = IOk d -> hdr_ok d.
+Proof. exact loads_headers. Qed.
+Print Assumptions C02_headers.
